@@ -16,7 +16,8 @@
     front_roundtrip        : g.WF → load builtins g.pretty = .ok (g.den builtins)   (one blank)
 
   (`GrammarText g t`, Front/AstTrivia.lean: `t` spells the tokens of `g` in order, each followed by
-  some trivia; doc comments are `marker ++ line ++ "\n"`.)  I.e. the front end accepts every such
+  some trivia; doc comments are `marker ++ optional blank ++ line ++ "\n"`,
+  the blank belonging to the marker since the `fix:` commit 77be14c.)  I.e. the front end accepts every such
   text of every well-formed source-level grammar and builds exactly the rule table it denotes: rule names, modifiers and doc lines; `~` binding
   tighter than `|`, both flattened into n-ary nodes; prefix operators outside postfix operators,
   postfix operators innermost first; parentheses as `Group`; tags; PEEK slices; repetition
